@@ -350,6 +350,46 @@ def check_result_entries(ctx) -> None:
     ctx.floor('Y6', n, 200, 'result schema entries')
 
 
+def check_value_rewrites(ctx) -> None:
+    """Y8: the schema publishes a parameter's domain; reader special cases must not replace one accepted value by another.  A store
+    `ParameterToModify.value = <Enum>.<M>` under a guard `ParameterToModify.value == <Enum>.<M2>` (M2 != M) rewrites an accepted
+    value unless the guard cannot hold (a conjunct compares the same value with members of another enumeration)."""
+    repo = ctx.repo
+    reg = get_registry(repo)
+    n = 0
+    for f in repo.all_functions():
+        if f.name != 'read_parameters':
+            continue
+        for node in ast.walk(f.node):
+            if not isinstance(node, ast.If):
+                continue
+            stores = [st for st in node.body if isinstance(st, ast.Assign) and norm(st.targets[0]).endswith('.value') and
+                      isinstance(st.value, ast.Attribute) and isinstance(st.value.value, ast.Name) and st.value.value.id in reg.enums.enums]
+            if not stores:
+                continue
+            st = stores[0]
+            tgt = norm(st.targets[0])
+            en, mem = st.value.value.id, st.value.attr
+            eqs = [c for c in ast.walk(node.test) if isinstance(c, ast.Compare) and len(c.ops) == 1 and isinstance(c.ops[0], ast.Eq) and
+                   norm(c.left) == tgt and isinstance(c.comparators[0], ast.Attribute) and norm(c.comparators[0].value) == en and
+                   c.comparators[0].attr != mem]
+            if not eqs:
+                continue
+            n += 1
+            dead = False
+            for c in ast.walk(node.test):
+                if isinstance(c, ast.Compare) and len(c.ops) == 1 and isinstance(c.ops[0], ast.In) and norm(c.left) == tgt and \
+                        isinstance(c.comparators[0], (ast.List, ast.Tuple)):
+                    others = {norm(e.value) for e in c.comparators[0].elts if isinstance(e, ast.Attribute)}
+                    if others and en not in others:
+                        dead = True        # the value would have to be a member of two different enumerations at once
+            key = f'{f.qualname}/{tgt}:{en}.{eqs[0].comparators[0].attr}->{mem}/accepted-value-not-rewritten'
+            ctx.check(dead, 'Y8', key, f'{f.module.rel}:{st.lineno}',
+                      f'`{norm(st)}` under `{norm(node.test)[:90]}` replaces the accepted value {en}.{eqs[0].comparators[0].attr} by {en}.{mem}: the '
+                      f'schema publishes that value as valid, the simulator silently runs another one', fact='guard cannot hold (type-inconsistent conjunct)')
+    ctx.analysed['reader_value_rewrite_sites'] = n
+
+
 def check_unit_pairing(ctx) -> None:
     """Y5: the unit attribute the schema publishes is the unit the reader converts unit-suffixed inputs into (and in
     which the bounds are therefore enforced)."""
@@ -391,6 +431,9 @@ def check_unit_pairing(ctx) -> None:
 
 
 def run(ctx) -> None:
+    ctx.rule('Y9', 'default values are fresh objects per instance (C08 P3): the published default cannot be changed by an earlier run')
+    ctx.rule('Y8', 'no reader special case replaces one accepted enumeration value by another (unless its guard cannot hold)')
+    ctx.rule('Y7', 'every result field of the schema / client table is printed by some report writer, except the frozen legacy labels (C10 X6)')
     ctx.rule('Y6', 'each committed result-schema entry is what the generator derives from the output declaration named like the field (units, description), empty iff none')
     ctx.rule('Y5', 'the unit attribute published by the generator is the one ConvertUnits converts unit-suffixed inputs into')
     ctx.rule('Y1', 'request schema properties = union of the input parameters registered by the classes the simulator can '
@@ -403,6 +446,17 @@ def run(ctx) -> None:
     check_hip(ctx)
     check_result(ctx)
     check_result_entries(ctx)
+    check_value_rewrites(ctx)
+    # Y9: the published default is the default of every run: a DefaultValue object shared between instances is edited in place by the
+    # readers, after which the generator (same process) publishes - and the next run uses - the previous run's values (C08 P3)
+    from gxstat.runner import Renamed
+    from rules.c08 import check_p3
+    check_p3(Renamed(ctx, {'P3': 'Y9'}, key_filter=lambda k: 'DefaultValue' in k or 'fresh' in k))
+    # Y7: "every result field named in the result schema is one the client can extract from a report": some writer prints its label (C10 X6)
+    from gxstat.report import writer_templates
+    from gxstat.runner import Renamed
+    from rules.c10 import check_x1_x2
+    check_x1_x2(Renamed(ctx, {'X6': 'Y7'}, key_filter=lambda k: True), writer_templates(ctx.repo))
     check_unit_pairing(ctx)
     ctx.exhaustive = True
     ctx.undecided('"committed = generated" is a baseline test (needs the generator to run); here both are tied to what is enforced')
